@@ -1,6 +1,6 @@
 (* PromqlCheck.v — executable comparison of the PromQL model with observations of the real
    parser + metrics query engine (used by the generated case files of C09). *)
-From SigM Require Import Base Promql.
+From SigM Require Import Base Promql PromqlFormula.
 From Coq Require Import QArith Qabs.
 Open Scope N_scope.
 
@@ -96,3 +96,21 @@ Definition mk_series (n : str) (l : labels) (c : list (list pt)) : series :=
 Definition mk_m (k : str) (op : mop) (v : str) : matcher := {| m_key := k; m_op := op; m_val := v |}.
 Definition mk_nq (f2 : aggfn) (g2 : grouping) (f1 : aggfn) (g1 : grouping) (n : str) (ms : list matcher) : nquery :=
   {| n_f2 := f2; n_g2 := g2; n_f1 := f1; n_g1 := g1; n_name := n; n_ms := ms |}.
+
+(* ---------- formulas (trees of binary operations over operand queries and numbers) ----------
+   init = opLabelsDoNotNeedToMatch of the caller (true: formula API, false: Prometheus endpoints); the observation is
+   an error or a vector.  Series without samples are not part of an observation; values are compared like nested
+   aggregations (division yields non-dyadic rationals that binary64 rounds) *)
+Inductive fobs := FoErr | FoVec (o : obs).
+Definition nonempty_series (v : vec) : vec := filter (fun e => negb (Nat.eqb (length (snd e)) 0)) v.
+Definition check_formula (db : list series) (w : Z * Z) (init : bool) (t : ftree) (o : fobs) : bool :=
+  match run_formula_range frag_match (fst w) (snd w) init t db, o with
+  | None, FoErr => true
+  | Some v, FoVec ob => res_close (nonempty_series v) ob
+  | _, _ => false
+  end.
+Fixpoint check_formulas_w (db : list series) (cs : list ((Z * Z) * bool * ftree * fobs)) (idx : N) : list N :=
+  match cs with
+  | [] => []
+  | (w, init, t, o) :: r => (if check_formula db w init t o then [] else [idx]) ++ check_formulas_w db r (idx + 1)
+  end.
